@@ -289,7 +289,15 @@ func (sc *RevScenario) evalCert(rc *ruleCtx, obs *RevObs, co *CallObs, v *CertVi
 				rc.fail("C04.R1", "ok_from_unknown_url", fmt.Sprintf("%s: OK attributed to OCSP URL %q that is not one of the certificate's responders", tag, sr.Server))
 				continue
 			}
-			if !s.Contacted || !hasAlt(s, good) {
+			// a certificate may list the same responder URL more than once:
+			// the entry is justified if any of those contacts delivered Good
+			justified := false
+			for _, c := range v.OCSP {
+				if c.URL == sr.Server && c.Contacted && hasAlt(c, good) {
+					justified = true
+				}
+			}
+			if !justified {
 				rc.fail("C04.R1", srcSig(s), fmt.Sprintf("%s: reported OK on the strength of OCSP responder %s whose delivery was %v (%s)", tag, s.URL, s.Alts, s.Desc))
 			}
 		}
